@@ -17,7 +17,7 @@ def fq(a):
 
 def run_selector(cls, axis, X, y, kw, nsel):
     """fit with a wrapper of the public score method; at every decision log pi, X_current_, y_current_"""
-    obj = cls(n_to_select=nsel, **kw)
+    obj = core.mk(cls, n_to_select=nsel, **kw)
     log = []
     orig = obj.score
 
